@@ -31,11 +31,10 @@ CLAIMS = {
     },
     "C03": {
         "text": ("The solver shows (a) the per-node decision of every strictness level equals the decision table of the documentation for every goal/candidate label pair, "
-                 "(b) are_kinds_matching over all u16 pairs, (c) which leftover goals may stay unmatched, and (thorough) (d) for concrete pattern variant vectors over flat "
-                 "lists that a reported match always has a legal alignment per an oracle written from the property text, and that a reported prefix length never exceeds the "
-                 "node nor splits a child."),
-        "note": ("Bounds: k <= 3 candidates, <= 3 goals, labels from 5 kinds + ERROR, 1-2 byte texts. One nesting level. Known finding D5 (tokens after `$$$` are skipped "
-                 "unchecked) is listed in known_findings.txt and tolerated by the oracle as exactly that class."),
+                 "(b) are_kinds_matching over all u16 pairs, (c) which leftover goals may stay unmatched."),
+        "note": ("NOT covered (engine limits, DESIGN 3): the sibling alignment itself (match_nodes_impl_recursive, match_single_node_while_skip_trivial, ellipsis handling): the harnesses "
+                 "(c03_env_*, c03_len_*, c03_tt_*, c03_sep_*, c03_lay_*; oracle validated natively on 184 320 cases) run out of 24 GB / 30 min even for two terminal goals against "
+                 "two candidates at one concrete strictness, and are kept in the lab tier. Both seeded changes for C03 are in that loop and are missed. Labels: 5 kinds + ERROR, 1-byte texts."),
     },
     "C04": {
         "text": ("For the composite matchers All/Any over stub children that may write a binding and then fail, with a symbolic pre-existing environment, the solver shows "
@@ -44,12 +43,12 @@ CLAIMS = {
         "note": "Bounds: 3 children, names {A,B}, root + 2 leaves. Relational-rule candidates and utility constraints (config crate) are not covered by this check.",
     },
     "C05": {
-        "text": ("Claimed for single-call kernels of the real matchers built from parts: the solver shows (a) NthChild (no ofRule) matches node X of any tree <= 4 nodes exactly when X is "
-                 "named, has a parent and its 1-based position among the parent's named children (from the end when `reverse`) is A*m+B for some m >= 0; (b) RangeMatcher matches exactly "
+        "text": ("Claimed for single-call kernels of the real matchers built from parts: the solver shows (a) NthChild matches node X of any tree <= 4 nodes exactly when X is "
+                 "named, has a parent and its 1-based position among the parent's named children -- with `ofRule: {kind: K}`: among those of kind K, X included -- (from the end when `reverse`) is A*m+B for some m >= 0; (b) RangeMatcher matches exactly "
                  "when the node's start and end equal the requested 0-based line / character column (multi-byte text); (c) Inside / Has / Follows / Precedes with goal `kind: number`, "
                  "stopBy neighbor or end, and (inside, has) a field, match node X of any tree <= 4 nodes exactly when the reference quantification over ancestors / descendants / "
                  "earlier / later siblings says so; (d) FunctionalPosition::is_matched(A,B,i) <=> exists n >= 0: i+1 = A*n+B."),
-        "note": ("NOT covered (engine limits, DESIGN 3; harnesses kept in the lab tier): stopBy with a stop *rule*, all/any/not, matches, regex, nthChild.ofRule, kind (trivial id compare) and the "
+        "note": ("NOT covered (engine limits, DESIGN 3; harnesses kept in the lab tier): stopBy with a stop *rule*, all/any/not, matches, regex, nthChild.ofRule with a non-`kind` rule, kind (trivial id compare) and the "
                  "YAML/deserialize_rule half. Matcher values are built from parts through hook constructors and called once through match_node_with_env with an empty environment. "
                  "Bounds: ANY(4) with symbolic shape, kinds in {ident, number, comment}, named bits / field labels; A in [-2,2], B in [-2,4]; a 9-byte text with 2- and 4-byte characters and "
                  "symbolic line breaks. Precondition of the reference assumed: a field labels at most one child of a node."),
@@ -61,13 +60,13 @@ CLAIMS = {
     },
     "C07": {
         "text": ("The solver shows split_first_meta_var agrees with a reference scanner on every string <= 7 bytes starting with the sigil, get_indent_at_offset equals the "
-                 "line's leading-space count for every prefix <= 8 bytes, and extract_with_deindent/indent_lines shift every continuation line by exactly (to - from) and are the "
-                 "identity for to == from (self-rewrite is a no-op)."),
-        "note": ("Whole-template scanning (create_template) is decided only up to 4-byte templates in the thorough tier: String-heavy code exhausts the back end beyond that "
-                 "(measured, DESIGN §8.2). The 512-byte look-ahead window is exercised only below 512 bytes."),
+                 "line's leading-space count for every prefix <= 8 bytes, and extract_with_deindent/indent_lines are the identity when the text is put back at the column it was taken from "
+                 "(self-rewrite is a no-op)."),
+        "note": ("NOT covered (lab tier, do not finish): whole-template scanning (create_template) and re-indentation by a non-zero shift -- String-heavy code exhausts the back end "
+                 "(DESIGN 3). The 512-byte look-ahead window is exercised only below 512 bytes. Fixer/TemplateFix expansion needs a populated MetaVarEnv."),
     },
     "C10": {
-        "text": ("For every text <= 4 bytes, edit position, deleted length and inserted text <= 2 bytes the solver shows AstGrep::edit splices the text exactly and hands the old "
+        "text": ("For every text <= 4 bytes, edit position, deleted length and inserted text <= 2 bytes (ASCII contents symbolic, or the two-byte character U+00E9) the solver shows AstGrep::edit splices the text exactly and hands the old "
                  "tree exactly one Tree::edit whose InputEdit (byte offsets and row/column points on old and new text) describes the change exactly, then re-parses "
                  "incrementally -- the whole obligation of the Rust side under tree-sitter's incremental-parsing contract."),
         "note": ("The incremental parser itself is outside the claim (FFI). Sizes are enumerated concretely (105 size classes), contents symbolic. The defect this check found "
@@ -75,10 +74,9 @@ CLAIMS = {
     },
     "C11": {
         "text": ("Panic-freedom (Kani's overflow/index/unwrap checks) of the post-deserialisation kernels for every value in range: parse_an_b on all strings <= 12 bytes, "
-                 "FunctionalPosition::is_matched for all (step, offset) in i32^2, Transformation::used_vars/parse on any source string, the convert word splitter on non-ASCII "
-                 "text, and rejection at load time of a replace transformation whose regex does not compile."),
-        "note": ("YAML/serde front half not executed (values built programmatically). Termination/stack-overflow clause: two accepted-cycle defects are recorded as findings; "
-                 "hangs inside regex/tree-sitter out of reach."),
+                 "FunctionalPosition::is_matched for all (step, offset) in i32^2, Transformation::used_vars/parse on any source string, and rejection at load time of a replace transformation whose regex does not compile."),
+        "note": ("YAML/serde front half not executed (values built programmatically). NOT covered (lab tier): the `convert` word splitter (string_case) and end-to-end replace through "
+                 "RuleCore. Termination/stack-overflow clause: two accepted-cycle defects are recorded as observations (DESIGN 5); hangs inside regex/tree-sitter out of reach."),
     },
     "C12": {
         "text": ("The solver shows that the string form and the object form of `fix` both substitute a transformed variable, and (thorough) that utility-rule registration "
@@ -93,16 +91,18 @@ CLAIMS = {
         "note": "Layouts (<= 3 siblings) are enumerated per harness; line numbers symbolic in [0,4]; rule configs built from parts. Multi-line comments and nested comments not covered.",
     },
     "C16": {
-        "text": ("The solver shows get_char_column equals the number of characters since the last newline for every text of <= 4 characters over {a, 2-byte, 4-byte, newline} "
-                 "and every boundary offset, and that Node::display_context returns exactly the whole-line window (leading/matched/trailing/start_line) for every text <= 6 (9) "
+        "text": ("The solver shows get_char_column (given the true byte column) equals the number of characters since the last newline for every text of <= 4 characters over {a, newline, "
+                 "2-, 3- and 4-byte characters whose leaders sit on the boundaries of the UTF-8 length classes} and on a fixed 12-byte multi-byte layout, every boundary offset, and that Node::display_context returns exactly the whole-line window (leading/matched/trailing/start_line) for every text <= 6 (9) "
                  "bytes, node range and before/after <= 2."),
         "note": "JSON framing and the plain-text merger live in the cli crate (not reachable); meta-variable records reuse the same two kernels.",
     },
     "C19": {
         "text": ("For every tree of <= 4 nodes (5 thorough) with symbolic shape and labels and every start node the solver shows children/parent/child(i) consistency and range "
                  "nesting, ancestors = iterated parent, next_all/prev_all = iterated next/prev, and that Pre and Post visit exactly the subtree once each in the specified "
-                 "order; Level order is shown for all 9 shapes <= 4 nodes with symbolic labels. Positions: see C16."),
-        "note": "Non-zero-width siblings assumed for the sibling clauses (as the property states). tree-sitter's own cursor is replaced by the mock (contract in kani/mock-ts).",
+                 "order; field access (field / field_children / child_by_field_id); and that start_pos/end_pos (line, character column, byte point) equal the counts computed from the byte "
+                 "offset on a multi-byte text, also after AstGrep::edit inserted a multi-byte character into an ASCII document; get_char_column as under C16."),
+        "note": ("NOT covered: level order (Level) -- its queue is not decided even for a two-node tree, also with a FIFO shim in place of VecDeque (DESIGN 3/4). Non-zero-width siblings "
+                 "assumed for the sibling clauses (as the property states). tree-sitter's own cursor is replaced by the mock (contract in kani/mock-ts)."),
     },
     "C20": {
         "text": ("For every string within the stated length/alphabet bounds the solver shows extract_meta_var agrees with the specification table of the property, parse_an_b "
@@ -131,7 +131,7 @@ CLAIMED_NOW = ["C01", "C03", "C05", "C07", "C10", "C11", "C16", "C19", "C20"]
 UNCLAIMED_REASONS = {
     "C01": "Library search drivers: harnesses exist (FindAllNodes / overlap-free Visitor on ANY(4) and per shape, kind-set algebra, CombinedScan dispatch) but none finishes: FindAllNodes on ANY(4) was still in symbolic execution after 42 min (DESIGN 3). The CLI wiring and the literal-substring prefilter are in the cli crate and not reachable.",
     "C02": "The sibling-alignment engine (match_nodes_impl_recursive + MetaVarEnv) could not be decided by Kani/CBMC within 25 min / 30 GB even for one goal vs one candidate (DESIGN 3); harnesses and natively validated oracle are kept (c02_cut.rs).",
-    "C04": "Everything through MetaVarEnv (heap maps of String -> Node) exhausts the SAT back end (30 GB in propositional reduction) or symex time (DESIGN 3); harnesses kept (c04_ops.rs, c04_insert.rs).",
+    "C04": "Everything through a MetaVarEnv with content (heap maps of String -> Node) exhausts the SAT back end: ops::Any / All over stub children that bind a variable, 30 GB with symbolic write patterns and 24 GB even with a concrete write pattern and two children (c04k_*); MetaVarEnv::insert harnesses hit the spurious memory failures of DESIGN 3. Harnesses kept in the lab tier (c04_ops.rs, c04_insert.rs).",
     "C05": "Relational rules through Rule/RuleCore: 13-way dispatch + heap objects; > 20 min symex then 30 GB in array post-processing even with matcher structs on the stack and enumerated shapes (DESIGN 3); harnesses and oracle kept (c05_rel.rs).",
     "C06": "replace_all harnesses exist (c01_search.rs) but do not finish (ANY(4): > 28 min of symbolic execution); Fixer expansions / rewrite transformation need MetaVarEnv + RuleCore (DESIGN 3); CLI splice not reachable.",
     "C12": "get_matcher / Fixer::parse / check_var: String- and heap-heavy config code; the 2-byte template `$T` alone needs 25 min then runs out of memory (DESIGN 3); harnesses kept (c12_*.rs, c13_utils.rs).",
